@@ -474,7 +474,7 @@ harnesses! {
     c16_dir_csegsize { prop: C16, feat: "c16", tier: quick, mode: leaf, unwind: 4, caps: "drop=1" } => |s| c16::dir_parse(s, 2, 3);
     c16_dir_db { prop: C16, feat: "c16", tier: quick, mode: leaf, unwind: 4, caps: "drop=1" } => |s| c16::dir_parse(s, 3, 4);
     c16_dir_def { prop: C16, feat: "c16", tier: quick, mode: leaf, unwind: 4, caps: "drop=1" } => |s| c16::dir_parse(s, 4, 5);
-    c16_dir_device { prop: C16, feat: "c16", tier: quick, mode: leaf, unwind: 4, caps: "drop=1" } => |s| c16::dir_parse(s, 5, 6);
+    c16_dir_device { prop: C16, feat: "c16", tier: thorough, mode: leaf, unwind: 60, caps: "drop=1" } => |s| c16::dir_parse(s, 5, 6);
     c16_dir_dseg { prop: C16, feat: "c16", tier: quick, mode: leaf, unwind: 4, caps: "drop=1" } => |s| c16::dir_parse(s, 6, 7);
     c16_dir_dw { prop: C16, feat: "c16", tier: quick, mode: leaf, unwind: 4, caps: "drop=1" } => |s| c16::dir_parse(s, 7, 8);
     c16_dir_endm { prop: C16, feat: "c16", tier: quick, mode: leaf, unwind: 4, caps: "drop=1" } => |s| c16::dir_parse(s, 8, 9);
@@ -587,26 +587,6 @@ harnesses! {
     c05_bin_div_edge { prop: C05, feat: "c05", tier: quick, mode: full, unwind: 3, caps: "run=2,clone=1,drop=2" } => |s| c05::ev_bin(s, 3, 4, 8);
     c05_bin_rem_edge { prop: C05, feat: "c05", tier: quick, mode: full, unwind: 3, caps: "run=2,clone=1,drop=2" } => |s| c05::ev_bin(s, 4, 5, 8);
     c05_func_log2_neg { prop: C05, feat: "c05", tier: thorough, mode: full, unwind: 7, caps: "run=2,clone=1,drop=2,loop:avra_lib::expr::Expr::run_nested.0=67" } => |s| c05::ev_func(s, 9, 10, 0);
-    // ---- pass-level scenarios (real build_pass_1 + build_pass_2; mode pass, see step.rs)
-    p02_instr_nop { prop: X02, feat: "c02", tier: thorough, mode: pass, unwind: 3, caps: "drop=1,loop:avra_lib::builder::pass1::pass_1_internal.0=5,loop:avra_lib::builder::pass2::pass_2_internal.0=5" } => |s| step::layout_instr(s, 0, false);
-    p06_db_1 { prop: X06, feat: "c06", tier: thorough, mode: pass, unwind: 4, caps: "drop=1,loop:avra_lib::builder::pass1::pass_1_internal.0=7,loop:avra_lib::builder::pass2::pass_2_internal.0=7,loop:avra_lib::builder::pass1::build_pass_1.0=5,loop:avra_lib::builder::pass2::build_pass_2.0=5" } => |s| step::layout_db(s, 1);
-    p06_db_2 { prop: X06, feat: "c06", tier: thorough, mode: pass, unwind: 4, caps: "drop=1,loop:avra_lib::builder::pass1::pass_1_internal.0=7,loop:avra_lib::builder::pass2::pass_2_internal.0=7,loop:avra_lib::builder::pass1::build_pass_1.0=5,loop:avra_lib::builder::pass2::build_pass_2.0=5" } => |s| step::layout_db(s, 2);
-    p06_db_3 { prop: X06, feat: "c06", tier: thorough, mode: pass, unwind: 4, caps: "drop=1,loop:avra_lib::builder::pass1::pass_1_internal.0=7,loop:avra_lib::builder::pass2::pass_2_internal.0=7,loop:avra_lib::builder::pass1::build_pass_1.0=5,loop:avra_lib::builder::pass2::build_pass_2.0=5" } => |s| step::layout_db(s, 3);
-    p02_eeprom_cont { prop: X02, feat: "c02", tier: thorough, mode: pass, unwind: 4, caps: "drop=1,loop:avra_lib::builder::pass1::pass_1_internal.0=7,loop:avra_lib::builder::pass2::pass_2_internal.0=7,loop:avra_lib::builder::pass1::build_pass_1.0=5,loop:avra_lib::builder::pass2::build_pass_2.0=5" } => |s| step::eeprom_blocks(s, false);
-    p02_eeprom_org { prop: X02, feat: "c02", tier: thorough, mode: pass, unwind: 4, caps: "drop=1,loop:avra_lib::builder::pass1::pass_1_internal.0=7,loop:avra_lib::builder::pass2::pass_2_internal.0=7,loop:avra_lib::builder::pass1::build_pass_1.0=5,loop:avra_lib::builder::pass2::build_pass_2.0=5" } => |s| step::eeprom_blocks(s, true);
-    p06_reserve { prop: X06, feat: "c06", tier: thorough, mode: pass, unwind: 4, caps: "drop=1,loop:avra_lib::builder::pass1::pass_1_internal.0=7,loop:avra_lib::builder::pass2::pass_2_internal.0=7,loop:avra_lib::builder::pass1::build_pass_1.0=5,loop:avra_lib::builder::pass2::build_pass_2.0=5" } => |s| step::reservations(s, false);
-    p06_reserve_org { prop: X06, feat: "c06", tier: thorough, mode: pass, unwind: 4, caps: "drop=1,loop:avra_lib::builder::pass1::pass_1_internal.0=7,loop:avra_lib::builder::pass2::pass_2_internal.0=7,loop:avra_lib::builder::pass1::build_pass_1.0=5,loop:avra_lib::builder::pass2::build_pass_2.0=5" } => |s| step::reservations(s, true);
-    p06_wrongseg_0 { prop: X06, feat: "c06", tier: thorough, mode: pass, unwind: 4, caps: "drop=1,loop:avra_lib::builder::pass1::pass_1_internal.0=7,loop:avra_lib::builder::pass2::pass_2_internal.0=7,loop:avra_lib::builder::pass1::build_pass_1.0=5,loop:avra_lib::builder::pass2::build_pass_2.0=5" } => |s| step::wrong_segment(s, 0);
-    p06_wrongseg_1 { prop: X06, feat: "c06", tier: thorough, mode: pass, unwind: 4, caps: "drop=1,loop:avra_lib::builder::pass1::pass_1_internal.0=7,loop:avra_lib::builder::pass2::pass_2_internal.0=7,loop:avra_lib::builder::pass1::build_pass_1.0=5,loop:avra_lib::builder::pass2::build_pass_2.0=5" } => |s| step::wrong_segment(s, 1);
-    p06_wrongseg_2 { prop: X06, feat: "c06", tier: thorough, mode: pass, unwind: 4, caps: "drop=1,loop:avra_lib::builder::pass1::pass_1_internal.0=7,loop:avra_lib::builder::pass2::pass_2_internal.0=7,loop:avra_lib::builder::pass1::build_pass_1.0=5,loop:avra_lib::builder::pass2::build_pass_2.0=5" } => |s| step::wrong_segment(s, 2);
-    p06_wrongseg_3 { prop: X06, feat: "c06", tier: thorough, mode: pass, unwind: 4, caps: "drop=1,loop:avra_lib::builder::pass1::pass_1_internal.0=7,loop:avra_lib::builder::pass2::pass_2_internal.0=7,loop:avra_lib::builder::pass1::build_pass_1.0=5,loop:avra_lib::builder::pass2::build_pass_2.0=5" } => |s| step::wrong_segment(s, 3);
-    p06_wrongseg_4 { prop: X06, feat: "c06", tier: thorough, mode: pass, unwind: 4, caps: "drop=1,loop:avra_lib::builder::pass1::pass_1_internal.0=7,loop:avra_lib::builder::pass2::pass_2_internal.0=7,loop:avra_lib::builder::pass1::build_pass_1.0=5,loop:avra_lib::builder::pass2::build_pass_2.0=5" } => |s| step::wrong_segment(s, 4);
-    p10_set_seq { prop: X10, feat: "c10", tier: thorough, mode: pass, unwind: 4, caps: "drop=1,loop:avra_lib::builder::pass1::pass_1_internal.0=7,loop:avra_lib::builder::pass2::pass_2_internal.0=7,loop:avra_lib::builder::pass1::build_pass_1.0=5,loop:avra_lib::builder::pass2::build_pass_2.0=5" } => |s| step::set_sequence(s);
-    p10_set_dseg { prop: X10, feat: "c10", tier: thorough, mode: pass, unwind: 4, caps: "drop=1,loop:avra_lib::builder::pass1::pass_1_internal.0=7,loop:avra_lib::builder::pass2::pass_2_internal.0=7,loop:avra_lib::builder::pass1::build_pass_1.0=5,loop:avra_lib::builder::pass2::build_pass_2.0=5" } => |s| step::set_in_dseg(s);
-    p10_def { prop: X10, feat: "c10", tier: thorough, mode: pass, unwind: 4, caps: "drop=1,loop:avra_lib::builder::pass1::pass_1_internal.0=7,loop:avra_lib::builder::pass2::pass_2_internal.0=7,loop:avra_lib::builder::pass1::build_pass_1.0=5,loop:avra_lib::builder::pass2::build_pass_2.0=5" } => |s| step::def_undef(s, 0);
-    p10_undef { prop: X10, feat: "c10", tier: thorough, mode: pass, unwind: 4, caps: "drop=1,loop:avra_lib::builder::pass1::pass_1_internal.0=7,loop:avra_lib::builder::pass2::pass_2_internal.0=7,loop:avra_lib::builder::pass1::build_pass_1.0=5,loop:avra_lib::builder::pass2::build_pass_2.0=5" } => |s| step::def_undef(s, 1);
-    p10_duplabel_0 { prop: X10, feat: "c10", tier: thorough, mode: pass, unwind: 4, caps: "drop=1,loop:avra_lib::builder::pass1::pass_1_internal.0=7,loop:avra_lib::builder::pass2::pass_2_internal.0=7,loop:avra_lib::builder::pass1::build_pass_1.0=5,loop:avra_lib::builder::pass2::build_pass_2.0=5" } => |s| step::duplicate_label(s, 0);
-    p10_duplabel_1 { prop: X10, feat: "c10", tier: thorough, mode: pass, unwind: 4, caps: "drop=1,loop:avra_lib::builder::pass1::pass_1_internal.0=7,loop:avra_lib::builder::pass2::pass_2_internal.0=7,loop:avra_lib::builder::pass1::build_pass_1.0=5,loop:avra_lib::builder::pass2::build_pass_2.0=5" } => |s| step::duplicate_label(s, 1);
-    p10_duplabel_2 { prop: X10, feat: "c10", tier: thorough, mode: pass, unwind: 4, caps: "drop=1,loop:avra_lib::builder::pass1::pass_1_internal.0=7,loop:avra_lib::builder::pass2::pass_2_internal.0=7,loop:avra_lib::builder::pass1::build_pass_1.0=5,loop:avra_lib::builder::pass2::build_pass_2.0=5" } => |s| step::duplicate_label(s, 2);
-    p13_gate_pass2 { prop: X13, feat: "c13", tier: thorough, mode: pass, unwind: 4, caps: "drop=1,loop:avra_lib::builder::pass1::pass_1_internal.0=7,loop:avra_lib::builder::pass2::pass_2_internal.0=7,loop:avra_lib::builder::pass1::build_pass_1.0=5,loop:avra_lib::builder::pass2::build_pass_2.0=5" } => |s| step::gate_in_pass2(s);
+    // (pass-level scenarios of step.rs are not registered: the smallest one reached 9.7 GB in the third
+    //  iteration of pass 1 after 20 min even with process / Item::clone replaced by models - DESIGN.md 0)
 }
